@@ -10,7 +10,7 @@ UNDECIDED_CLAUSES = ['"never delays the publisher" is decided as functional inde
                      'wall-clock delay caused by CPU contention is outside any contract']
 EXPLANATION = 'Functional-dependence obligations on the real sender closures; all-or-nothing and silence obligations on the real receiver for shapes with ? and ?? sources.'
 
-SQ = [Shape(('all',), (1,), False), Shape(('explicit',), (1,), False), Shape(('all',), (2,), False), Shape(('all', 'all'), (0, 1), False), Shape(('star', 'all'), (0, 2), False), Shape(('all', 'all'), (0, 1), False, timeout='sym', entry='held')]
+SQ = [Shape(('all',), (1,), False), Shape(('explicit',), (1,), False), Shape(('all',), (2,), False), Shape(('all', 'all'), (0, 1), False), Shape(('star', 'all'), (0, 2), False), Shape(('all', 'all'), (0, 1), False, timeout='sym', entry='held'), Shape(('all', 'all'), (1, 0), False)]
 ST = SQ + [Shape(('all', 'explicit'), (1, 1), False), Shape(('explicit', 'all'), (0, 1), False), Shape(('all', 'all', 'all'), (0, 1, 2), False)]
 r = RecvUnit({'C05'}, SQ, ST, keep=keep_for('C05.'))
 r.mutants = RECV_MUTANTS['C05']
